@@ -60,6 +60,9 @@ def refresh(which):
             continue
         meta = json.load(open(mp))
         pid = meta["property"]
+        if meta.get("obsolete"):
+            print(name, "obsolete (kept for the record)")
+            continue
         import props
         if pid not in props.PROPS:
             meta["detection"] = {"status": "property not claimed yet"}
